@@ -45,6 +45,11 @@ PROGRAMS = [
     "SELECT amount FROM orders UNION SELECT age FROM users",
     "SELECT amount FROM orders WHERE qty IS NULL",
     "SELECT amount FROM orders ORDER BY amount LIMIT 1",
+    # grouping by a UNIQUE but nullable column (several NULLs form one group across units), by a key, by the unit's own column
+    "SELECT tag, sum(amount) AS total FROM orders GROUP BY tag",
+    "SELECT tag, count(*) AS n FROM orders WHERE amount > 0 GROUP BY tag",
+    "SELECT id, sum(amount) AS total FROM orders GROUP BY id",
+    "SELECT user_id, sum(amount) AS total FROM orders GROUP BY user_id",
 ]
 
 
